@@ -8,7 +8,8 @@ PROP = "C07"
 # cycle-level refinement for the streaming handler states and the bus reset (added by the second C07 prover)
 STREAM_MODULES = ["LunaVerif.Lemmas.C07Stream", "LunaVerif.Lemmas.C07StreamCycles", "LunaVerif.Lemmas.C07StreamSeq",
                   "LunaVerif.Lemmas.C07StreamMain", "LunaVerif.Lemmas.C07StreamRun", "LunaVerif.Lemmas.C07StreamExamples",
-                  "LunaVerif.Lemmas.C07StreamContracts", "LunaVerif.Lemmas.C07Closed"]
+                  "LunaVerif.Lemmas.C07StreamContracts", "LunaVerif.Lemmas.C07Closed",
+                  "LunaVerif.Lemmas.C07Closed2"]
 LEAN_MODULES = ["LunaVerif.Props.C07"] + dev_ctl.CYC_MODULES + STREAM_MODULES
 DRIVER = dev_ctl.DRIVER
 REQUIRED_THEOREMS = ["stage_follows_setup", "data_in_only_after_in_setup", "in_token_answered_only_in_data_or_status_in", "out_data_answered_only_in_status_out", "setup_always_restarts", "other_endpoint_tokens_are_stutter", "other_endpoint_transactions_are_stutter",
@@ -17,9 +18,12 @@ REQUIRED_THEOREMS = ["stage_follows_setup", "data_in_only_after_in_setup", "in_t
                      "cyc_stage_follows_setup", "cyc_requests_follow_setup", "cycle_refines_event", "cycle_refines_event_run",
                      "sim_window", "cycle_refines_event_streams", "cycle_refines_event_all", "cycle_refines_event_streams_run",
                      "ready_cycle_wires", "transmitter_contract", "descriptorPacket_spec", "block_handler_contract", "dist_handler_contract",
-                     "wires_indep", "sysStep_ignores_t", "cl_send", "closed_event", "closed_loop_refines_event_run"]
-RULE_SYS = ("; next to it the serializer model of the closed loop (Model/Usb2/ControlCycSys.lean: StreamGen.serStep wired to the "
-            "handler model's transmitter wires) is compared with the real transmitter's stream outputs in every cycle")
+                     "wires_indep", "sysStep_ignores_t", "cl_send", "closed_event", "closed_loop_refines_event_run",
+                     "cl2_desc", "closed_event2", "closed2_refines_event_run"]
+RULE_SYS = ("; next to it the two streamer models of the closed loops (Model/Usb2/ControlCycSys.lean: StreamGen.serStep wired to "
+            "the handler model's transmitter wires; Desc.Block.step over Rom.layout of the case's descriptor table wired to "
+            "value / length / start_position / start / ready, in the cases with GetDescriptorHandlerBlock) are compared with "
+            "the real transmitter's / descriptor handler's outputs in every cycle (41 values per cycle)")
 RULE = dev_ctl.RULE + dev_ctl.CYC_RULE + RULE_SYS
 ASSUMPTIONS = dev_ctl.ASSUMPTIONS
 PARTIAL_STREAMS = (
@@ -32,17 +36,22 @@ PARTIAL_STREAMS = (
     "'transmitter' and the descriptor handler are INPUTS of the cycle-level model, constrained in the expansion of an "
     "event by their stream contract (silent unless started; after `start` silent for lat >= 1 cycles, then the answer byte by "
     "byte, each held until tx.ready, `first`/`last` flags, ZLP = valid & last & ~first, missing descriptor = one stall "
-    "cycle: Desc.respTrace); for the TRANSMITTER the contract is discharged by a formal closed loop: "
-    "closed_loop_refines_event_run proves the same refinement of sysStep = CtrlCyc.step composed with the serializer model "
-    "StreamGen.serStep (Model/Usb2/ControlCycSys.lean, co-simulated in situ against the real transmitter in every cycle) "
-    "with no assumption on the transmitter; for the DESCRIPTOR HANDLER the contract is proved of the handler models "
-    "separately (block_handler_contract from C09's block_packet_exact with descriptorPacket_spec: the event-level "
-    "descriptorPacket is C09's specResponse at in-order offsets) together with the wires the standard handler drives to it "
-    "(streamers_not_started, ready_cycle_wires, window_wires), but that closed loop is not composed formally (the answer "
-    "of the descriptor handler stays the event-level descriptorPacket); dist_handler_contract is the same link for the "
-    "distributed descriptor handler (lat <= 2: its STALL in the start cycle is in the expansion -- GapsS.stallNow --, a DATA "
-    "beat in the start cycle would not be), for the descriptor-handler mux the link lemma is not stated (C09 "
-    "mux_requests_exact has the same form); the host-side contract is that a started "
+    "cycle: Desc.respTrace); BOTH contracts are discharged by formal closed loops: closed_loop_refines_event_run proves the "
+    "same refinement of sysStep = CtrlCyc.step composed with the serializer model StreamGen.serStep "
+    "(Model/Usb2/ControlCycSys.lean, co-simulated in situ against the real transmitter in every cycle) with no assumption "
+    "on the transmitter (any descriptor handler satisfying the contract), and closed2_refines_event_run proves it of "
+    "sys2Step = CtrlCyc.step + serializer model + the C09 model of GetDescriptorHandlerBlock (Desc.Block.step over "
+    "Rom.layout of the event-level descriptor table) with NO stream contract left: the handler model produces the window's "
+    "beats itself (cl2_desc, from C09 block_packet_exact / block_returns_idle via block_handler_contract and "
+    "descriptorPacket_spec: the event-level descriptorPacket is C09's specResponse at in-order offsets), the theorem "
+    "provides the descriptor-window latencies (SameButLat); remaining hypotheses there: the block handler's constructor "
+    "preconditions (wellFormed collection, position register >= 2 bits), well-sized in-order descriptor reads (DescReqOk: "
+    "start_position <= min(wLength, |descriptor|) -- the host stops after a short packet), windows long enough (Fits2From = "
+    "C09's Complete 4); both streamer models inside the loops are co-simulated IN SITU (inside the real handler, on the "
+    "model's own wires) in every cycle of the cycle-level co-simulation; for the distributed "
+    "descriptor handler only the contract link is proved (dist_handler_contract, lat <= 2: its STALL in the start cycle is "
+    "in the expansion -- GapsS.stallNow --, a DATA beat in the start cycle would not be), for the descriptor-handler mux no "
+    "link lemma is stated (C09 mux_requests_exact has the same form); the host-side contract is that a started "
     "stream is consumed within the event's window (StreamFits) and that descriptor reads are in order; the expansion also "
     "encodes the contracts of the token detector, setup decoder and the device core's receiver strobes (proved at C04-C06, "
     "not composed formally here); not covered: configurations with additional request handlers (c.extra != []), "
